@@ -501,6 +501,7 @@ def run_op(op, env, extra):
     # ---- refusals
     if o == "setattr":
         a = env[op["arg"]]
+        extra["is_prop"] = isinstance(a, _STIXBase) and op["name"] in a
         before = read_attr(a, op["name"])
         try:
             setattr(a, op["name"], env[op["val"]] if op.get("val") is not None else "changed")
@@ -514,6 +515,7 @@ def run_op(op, env, extra):
         return None, extra, ()
     if o == "delattr":
         a = env[op["arg"]]
+        extra["is_prop"] = isinstance(a, _STIXBase) and op["name"] in a
         try:
             delattr(a, op["name"])
             extra["refused"] = False
@@ -524,6 +526,7 @@ def run_op(op, env, extra):
         return None, extra, ()
     if o == "setitem":
         a = env[op["arg"]]
+        extra["is_prop"] = isinstance(a, _STIXBase) and op["name"] in a
         try:
             a[op["name"]] = env[op["val"]] if op.get("val") is not None else "changed"
             extra["refused"] = False
@@ -534,6 +537,7 @@ def run_op(op, env, extra):
         return None, extra, ()
     if o == "delitem":
         a = env[op["arg"]]
+        extra["is_prop"] = isinstance(a, _STIXBase) and op["name"] in a
         try:
             del a[op["name"]]
             extra["refused"] = False
@@ -667,7 +671,7 @@ def run_case(case):
                 mut.append(d)
         sh = shared_with(result, names) if exc is None else []
         o = {"exc": exc, "mut": mut, "shared": sh, "rkind": rkind(result) if exc is None else "exc"}
-        if "refused" in extra or "equal" in extra or "attr_same" in extra:
+        if "refused" in extra or "equal" in extra or "attr_same" in extra or "is_prop" in extra:
             o["extra"] = {k: v for k, v in extra.items() if k != "msg"}
         if exc is not None and case.get("explain"):
             o["msg"] = extra.get("msg")
